@@ -110,6 +110,11 @@ func init() {
 			}
 			return bad, good, fails
 		}},
+		{"async-capture", func(p *Prog) (int, int, []string) {
+			return expect(p, "async-capture", []string{"fix.AsyncGood"}, []string{"fix.AsyncBad", "fix.AsyncCallbackBad"}, func(c *Ctx, fn *ssa.Function) {
+				c.AsyncCaptures(fn, "*.NewJob", 1)
+			})
+		}},
 		{"ordering", func(p *Prog) (int, int, []string) {
 			return expect(p, "ordering", []string{"fix.OrderGood"}, []string{"fix.OrderBad"}, func(c *Ctx, fn *ssa.Function) {
 				c.MP(fn, "second only after first", c.CallsD(fn, "fix.second()"), 1, GCalled("fix.first()"))
